@@ -466,3 +466,12 @@ Proof.
     rewrite N0, Nx, andb_false_r in H. injection H as <-.
     rewrite axis_intersection_mem, IHx. reflexivity.
 Qed.
+
+(* ------------------------------------------------------------------ the kind of a merged axis (GENERATED _get_cast_kind) *)
+(* an integer axis merged with a float axis is a float axis (no label is truncated), equal kinds stay, an object axis wins *)
+Lemma merge_kind_table :
+  merge_kind KI KF = (KF, true) /\ merge_kind KF KI = (KF, true) /\ merge_kind KI KI = (KI, true) /\ merge_kind KF KF = (KF, true) /\
+  (forall k, k <> KO -> merge_kind KO k = (KO, false) /\ merge_kind k KO = (KO, false)) /\ merge_kind KO KO = (KO, true).
+Proof.
+  repeat split; try reflexivity; destruct k; try reflexivity; contradiction.
+Qed.
